@@ -1,59 +1,100 @@
 """C34 — addon results are relayed faithfully.
 
-theorems   Cppcheck.Addon.relay_wellformed (each well-formed line of an enabled severity exactly once, fields preserved, for any
-           output length), relay_sound (nothing invented), convert_report_props (id = <addon>-<errorId>, severity enabled,
-           message preserved), relay_failed_iff (failure <=> non-zero exit / non-'{' line / ill-typed member), convert_mkLine,
-           convert_mkLine_filtered
-C1         the real cppcheck binary runs a scripted addon (an executable printing generated lines and exiting with a chosen
-           status); findings reported in --xml form (id, severity, message, all locations, cwe) and the presence of an
-           internalError are compared with the model's relay of the same lines
-P_impl     independent of the model: every well-formed line of an enabled severity appears exactly once with its fields; no
-           crash (exit status is a normal cppcheck status), malformed output only ever yields skipped lines or internalError
+theorems   Cppcheck.Addon.*  (Props/C34.lean): relayShown_spec / relayShown_wellformed / relayShown_complete (what the binary
+           prints = relay, then suppressions, then the duplicate filter), relay_general / relay_ok_general (every output),
+           convert_file_general / convert_general / convert_noloc_general / convert_report_props (one object, any shape),
+           relayShown_suppressions, relay_failed_iff / outClass_failed_iff, ctuInfo_general, lineOf_notBrace_iff, ...
+C1         the real cppcheck binary runs a scripted addon (an executable printing a generated text and exiting with a chosen
+           status); findings reported in --xml form (id, severity, message, all locations, cwe), the presence of an
+           internalError and the exit status are compared with the model run on the RAW TEXT of the same output
+C2         the JSON reader (picojson of the working tree, harness/c34.cpp) turns every line that starts with `{` into the
+           member view the model consumes; python's own view of the lines it generated is compared with it on every line
+P_impl     independent of the model: every well-formed line of an enabled, unsuppressed severity is reported with its fields,
+           once per rendered text; no crash (exit status is a normal cppcheck status) for every class of malformed output
 """
-import json, os, re, stat, subprocess, shutil
+import json, os, stat, shutil
 import xml.etree.ElementTree as ET
 from concurrent.futures import ThreadPoolExecutor
 from .. import core
 
 ID = "C34"
 LEVEL = "proof"
-RULE = ("one case = one addon output (1..10 lines: well-formed findings with one or several locations, disabled/none/internal "
-        "severities, summaries, metrics, ill-typed or missing members, empty / Checking / non-JSON / non-brace lines) x addon exit "
-        "status x enabled severities x optional suppression; non-trivial = at least 2 object lines")
-EXPLANATION = ("Lean: relay of any addon output = exactly the well-formed enabled lines in order, failure iff exit!=0 / non-brace "
-               "line / ill-typed member. Tie: scripted addon through the real binary, per-file and whole-program (ctu) phase. "
-               "Outside the model: picojson's own JSON grammar (lines are generated from a grammar whose classification is "
-               "unambiguous), addon process spawning, premium ids, file-list mode with >= 2 files per invocation.")
-THEOREMS = ["Cppcheck.Addon.relay_wellformed", "Cppcheck.Addon.relay_sound", "Cppcheck.Addon.convert_report_props",
-            "Cppcheck.Addon.relay_failed_iff", "Cppcheck.Addon.convert_mkLine", "Cppcheck.Addon.convert_mkLine_filtered",
-            "Cppcheck.Addon.ctuInfo_all_addons"]
+RULE = ("one case = one addon output as raw text (0..10 lines: well-formed findings with file members / a loc array / no location, "
+        "disabled/none/internal severities, summaries, metrics, ill-typed or missing members, duplicate lines, near-JSON, empty / "
+        "Checking / non-JSON / non-brace lines, CR, missing final newline) x addon exit status x enabled severities x suppressions "
+        "(id / id:file / id:file:line / *:file); non-trivial = at least 2 object lines")
+EXPLANATION = ("Lean (proved): what is printed for one addon invocation = relay (conversion of every object line in front of the first "
+               "ill-typed one, in order), then the suppression matcher (abstract: any function of id / last location / hash), then the "
+               "duplicate filter (first finding per rendered text); failure iff exit!=0 / non-brace line / ill-typed member; summaries of "
+               "all addons reach the ctu-info when no object is ill-typed. Clause by clause: 'reports each finding ... with location, "
+               "severity, message' = theorem (once per rendered text; finding F34a: cwe/info of a later finding with the same rendered "
+               "text are lost); 'applies suppressions like any other finding' = theorem over an abstract matcher + tie on the glob-free "
+               "fragment (the matcher itself is C23's); 'summaries forwarded' = theorem + tie; 'malformed output = skipped lines or "
+               "internal error' = theorem; 'never a crash' = NOT a theorem (the model has no such outcome): observed exit status / signal "
+               "of the real binary for every malformed-output class on every run. Tie: scripted addon through the real binary, raw text "
+               "classified by the Lean model, JSON member view by the real picojson (harness). Outside the model: picojson's grammar "
+               "itself (a parameter of the model, supplied by the real reader), addon process spawning, premium ids, file-list mode "
+               "with >= 2 files per invocation, templates other than the default one.")
+THEOREMS = ["Cppcheck.Addon.relayShown_spec", "Cppcheck.Addon.relayShown_wellformed", "Cppcheck.Addon.relayShown_complete",
+            "Cppcheck.Addon.relayShown_once_per_line_counterexample", "Cppcheck.Addon.relayShown_once_per_line_partial",
+            "Cppcheck.Addon.relayShown_loses_cwe_counterexample", "Cppcheck.Addon.relayShown_suppressions",
+            "Cppcheck.Addon.relay_general", "Cppcheck.Addon.relay_ok_general",
+            "Cppcheck.Addon.relay_wellformed", "Cppcheck.Addon.relay_sound", "Cppcheck.Addon.convert_report_props",
+            "Cppcheck.Addon.convert_file_general", "Cppcheck.Addon.convert_general", "Cppcheck.Addon.convert_noloc_general",
+            "Cppcheck.Addon.locsOf_cases",
+            "Cppcheck.Addon.relay_failed_iff", "Cppcheck.Addon.outClass_failed_iff", "Cppcheck.Addon.exitStatus_iff",
+            "Cppcheck.Addon.convert_mkLine", "Cppcheck.Addon.convert_mkLine_filtered",
+            "Cppcheck.Addon.ctuInfo_general", "Cppcheck.Addon.ctuInfo_all_addons",
+            "Cppcheck.Addon.lineOf_notBrace_iff", "Cppcheck.Addon.lineOf_brace"]
 MODULES = ["Cppcheck.Props.C34"]
+ASSUMPTIONS = [
+    "the duplicate filters compare the text rendered from the DEFAULT templates (the tie runs with --xml and no --template); the model's "
+    "Finding.key is injective exactly as far as that text is: messages containing template placeholders ({line}, {file} ...) or a "
+    "newline, and file names that Path::simplifyPath rewrites, are not generated",
+    "duplicate member names inside one JSON object: picojson keeps the last one (std::map), the harness reports what picojson kept",
+    "the suppression matcher is a parameter of the theorems; the tie instantiates it with the glob-free fragment "
+    "<id|*>[:<file>[:<line>]] (property C23 owns the matcher)",
+    "'never a crash' is observed, not proved: exit status in {0, error-exitcode} and no signal for every class of outClass",
+]
 
 SEVS = ["error", "warning", "style", "performance", "portability", "information", "debug", "none", "internal", "bogus", ""]
 SEVBIT = dict(error=0, warning=1, style=2, performance=3, portability=4, information=5, debug=6)
-STRS = ["m1", "msg two", "a<b>&\"c'", "tab\\there", "é", "x" * 40, "", "see {line}"]
+STRS = ["m1", "msg two", "a<b>&\"c'", "tab\\there", "é", "x" * 40, "", "see line"]
+FILE0 = "t.c"
 
 
-def gen_obj(rng, addon):
-    """a JSON object (python dict, insertion order kept) + expected classification is left to the model"""
+def names(j):
+    """file names of case j inside a multi-file process (None: a process of its own); no name is a suffix of another"""
+    if j is None:
+        return dict(t="t.c", o="other.h", d="dir/x.c", h="h.h")
+    return dict(t="t%02d.c" % j, o="o%02d.h" % j, d="d%02d/x.c" % j, h="h%02d.h" % j)
+INT64 = (-(1 << 63), (1 << 63) - 1)
+
+
+def is_int(v):
+    return type(v) is int and INT64[0] <= v <= INT64[1]
+
+
+def gen_obj(rng, addon, nm):
+    """a JSON object (python dict, insertion order kept)"""
     k = rng.random()
     o = {}
     if k < 0.08:
         return {"summary": rng.choice(["s1", "s2"]), "data": [1, 2]}
     if k < 0.13:
-        o["metric"] = {"fileName": "t.c", "function": "f", "id": "HIS-x", "lineNumber": 3, "value": 7} if rng.random() < 0.7 else 5
+        o["metric"] = {"fileName": nm["t"], "function": "f", "id": "HIS-x", "lineNumber": 3, "value": 7} if rng.random() < 0.7 else 5
         if rng.random() < 0.5:
-            o.update(file="t.c", linenr=1, column=1)
+            o.update(file=nm["t"], linenr=1, column=1)
         return o
     # locations
     lk = rng.random()
-    if lk < 0.6:
-        o["file"] = rng.choice(["t.c", "t.c", "other.h", "dir/x.c"])
+    if lk < 0.55:
+        o["file"] = rng.choice([nm["t"], nm["t"], nm["o"], nm["d"]])
         o["linenr"] = rng.choice([1, 2, 3, 0, 77])
         o["column"] = rng.choice([0, 1, 5])
     elif lk < 0.85:
-        o["loc"] = [dict(file=rng.choice(["t.c", "h.h"]), linenr=rng.choice([1, 2, 9]), column=rng.choice([1, 4]), info=rng.choice(["", "note", "a<b"]))
-                    for _ in range(rng.choice([1, 2, 3]))]
+        o["loc"] = [dict(file=rng.choice([nm["t"], nm["h"]]), linenr=rng.choice([1, 2, 9]), column=rng.choice([1, 4]), info=rng.choice(["", "note", "a<b"]))
+                    for _ in range(rng.choice([0, 1, 1, 2, 3]))]
     o["severity"] = rng.choice(SEVS[:6]) if rng.random() < 0.7 else rng.choice(SEVS)
     o["message"] = rng.choice(STRS)
     o["addon"] = addon
@@ -65,17 +106,22 @@ def gen_obj(rng, addon):
         o["hash"] = rng.choice([1, 123456789])
     # damage
     d = rng.random()
-    if d < 0.22:
+    if d < 0.2:
         kind = rng.choice(["drop", "type", "loc"])
         if kind == "drop":
             key = rng.choice([x for x in o if x not in ("extra",)])
             del o[key]
         elif kind == "type":
             key = rng.choice(list(o))
-            o[key] = rng.choice([None, True, 1.5, [1], {"a": 1}, "str", 3]) if key != "loc" else rng.choice(["x", 3, {"file": "t.c"}])
+            o[key] = rng.choice([None, True, 1.5, [1], {"a": 1}, "str", 3, 1 << 63, 1.0]) if key != "loc" else rng.choice(["x", 3, {"file": nm["t"]}])
         elif "loc" in o and o["loc"]:
             it = rng.randrange(len(o["loc"]))
-            o["loc"][it] = rng.choice([5, "s", {"file": "t.c", "linenr": 1, "column": 1}, {"file": 3, "linenr": 1, "column": 1, "info": ""}])
+            o["loc"][it] = rng.choice([5, "s", {"file": nm["t"], "linenr": 1, "column": 1}, {"file": 3, "linenr": 1, "column": 1, "info": ""}])
+    if rng.random() < 0.15:
+        # another member order: nothing may depend on it
+        ks = list(o)
+        rng.shuffle(ks)
+        o = {k2: o[k2] for k2 in ks}
     return o
 
 
@@ -83,21 +129,19 @@ def scalar(v):
     if isinstance(v, bool) or v is None:
         return "o"
     if isinstance(v, int):
-        return "i%d" % v
+        return "i%d" % v if is_int(v) else "o"      # picojson: out of int64 range => double
     if isinstance(v, str):
         return "s" + core.hx(v.encode("utf-8").decode("latin-1"))
     return "o"
 
 
-def enc_fields(d, skip=()):
-    items = ["%s=%s" % (core.hx(k), scalar(v)) for k, v in d.items() if k not in skip]
+def enc_fields(d):
+    items = ["%s=%s" % (core.hx(k.encode("utf-8").decode("latin-1")), scalar(d[k])) for k in sorted(d, key=lambda x: x.encode("utf-8"))]
     return ",".join(items) if items else "."
 
 
-def enc_line(l):
-    if l["kind"] != "obj":
-        return dict(empty="E", checking="C", notbrace="N", badjson="B")[l["kind"]]
-    o = l["obj"]
+def enc_obj(o):
+    """python's own member view of an object (the encoding harness/c34.cpp prints for what picojson read)"""
     if "loc" not in o:
         loc = "a"
     elif not isinstance(o["loc"], list):
@@ -105,32 +149,88 @@ def enc_line(l):
     else:
         loc = "r" + ";".join(enc_fields(it) if isinstance(it, dict) else "x" for it in o["loc"])
     met = "-" if "metric" not in o else ("t" if isinstance(o["metric"], dict) else "f")
-    return "O:%s:%s:%s" % (enc_fields(o, skip=()), loc, met)
+    return "O:%s:%s:%s" % (enc_fields(o), loc, met)
 
 
-def gen_lines(rng, addon):
+def enc_line(l):
+    """encoding of an abstract line for the ctuinfo op"""
+    if l["kind"] != "obj":
+        return dict(empty="E", checking="C", notbrace="N", badjson="B")[l["kind"]]
+    return enc_obj(l["obj"])
+
+
+KINDCH = dict(empty="E", checking="C", notbrace="N", badjson="B", obj="O")
+NOTBRACE = ["hello world", "[1,2]", " {\"a\":1}", "Traceback (most recent call last):", "Checking", "Checkingx t.c", "\r", "\t{}", "}", "x{",
+            "checking t.c...", "1", "\"{\""]
+CHECKING = ["Checking t.c...", "Checking ", "Checking {\"a\":1}", "Checking  x"]
+BADJSON = ['{"a":}', '{"file":"t.c"', "{'a':1}", '{"a" 1}', "{", '{"a":1,}', '{"a":tru}', '{"a":"\x01"}', '{,}', '{"a":1 "b":2}']
+
+
+def obj_text(rng, o):
+    """JSON text of the object, sometimes in a spelling python would not choose (near-JSON that picojson accepts)"""
+    k = rng.random()
+    if k < 0.70:
+        return json.dumps(o, ensure_ascii=False)
+    if k < 0.78:
+        return json.dumps(o, ensure_ascii=True)                    # \uXXXX escapes
+    if k < 0.84:
+        return json.dumps(o, ensure_ascii=False, separators=(" , ", " : "))
+    if k < 0.90:
+        return json.dumps(o, ensure_ascii=False) + rng.choice([" x", "}", " {\"a\":1}", "\r", "\t", ",1"])   # picojson stops after the value
+    if k < 0.95:
+        return json.dumps(o, ensure_ascii=False, indent=None).replace("{", "{ ", 1)
+    # a duplicate member: the last one wins
+    t = json.dumps(o, ensure_ascii=False)
+    return '{"severity":"bogus",' + t[1:] if "severity" in o else t
+
+
+def gen_lines(rng, addon, nm):
     out = []
-    for _ in range(rng.choice([1, 2, 3, 4, 6, 10])):
+    for _ in range(rng.choice([0, 1, 2, 3, 4, 6, 10])):
         k = rng.random()
         if k < 0.07:
             out.append(dict(kind="empty", text=""))
         elif k < 0.13:
-            out.append(dict(kind="checking", text="Checking t.c..."))
+            out.append(dict(kind="checking", text=rng.choice(CHECKING)))
         elif k < 0.17:
-            out.append(dict(kind="notbrace", text=rng.choice(["hello world", "[1,2]", " {\"a\":1}", "Traceback (most recent call last):"])))
-        elif k < 0.23:
-            out.append(dict(kind="badjson", text=rng.choice(['{"a":}', '{"file":"t.c"', "{'a':1}", '{"a" 1}'])))
+            out.append(dict(kind="notbrace", text=rng.choice(NOTBRACE)))
+        elif k < 0.24:
+            out.append(dict(kind="badjson", text=rng.choice(BADJSON)))
+        elif k < 0.32 and any(l["kind"] == "obj" for l in out):
+            # a duplicate of an earlier line: identical, or differing only in what is not rendered (cwe / info of a single loc)
+            src = rng.choice([l for l in out if l["kind"] == "obj"])["obj"]
+            o = json.loads(json.dumps(src))
+            m = rng.random()
+            if m < 0.4 and isinstance(o.get("loc"), list) and len(o["loc"]) == 1 and isinstance(o["loc"][0], dict):
+                o["loc"][0]["info"] = rng.choice(["", "other", "note"])
+            elif m < 0.7:
+                o["cwe"] = rng.choice([398, 476, 1])
+            elif m < 0.8 and isinstance(o.get("loc"), list) and len(o["loc"]) >= 2 and isinstance(o["loc"][0], dict) and isinstance(o.get("message"), str):
+                o["loc"][0]["info"] = rng.choice(["", o["message"]])
+            out.append(dict(kind="obj", obj=o, text=obj_text(rng, o)))
         else:
-            o = gen_obj(rng, addon)
-            out.append(dict(kind="obj", obj=o, text=json.dumps(o, ensure_ascii=False)))
+            o = gen_obj(rng, addon, nm)
+            out.append(dict(kind="obj", obj=o, text=obj_text(rng, o)))
     return out
 
 
-def write_addon(d, name, lines, exitcode, ctu_lines=None):
-    open(os.path.join(d, "lines.txt"), "w", encoding="utf-8").write("".join(l["text"] + "\n" for l in lines))
+def case_text(case):
+    t = "\n".join(l["text"] for l in case["lines"])
+    if case["lines"] and not case.get("no_final_newline"):
+        t += "\n"
+    return t
+
+
+def write_addon(d, name, cases, ctu_lines=None):
+    """one executable serving every case of the process: the output is chosen by the name of the dump file (last argument)"""
     open(os.path.join(d, "ctu.txt"), "w", encoding="utf-8").write("".join(l["text"] + "\n" for l in (ctu_lines or [])))
+    branches = ""
+    for c in cases:
+        stem = names(c.get("idx"))["t"][:-2]
+        open(os.path.join(d, "lines_%s.txt" % stem), "w", encoding="utf-8", newline="").write(case_text(c))
+        branches += " *%s.*) cat '%s/lines_%s.txt'; exit %d;;\n" % (stem, d, stem, c["exitcode"])
     sh = os.path.join(d, name + ".sh")
-    open(sh, "w").write("#!/bin/sh\nfor a in \"$@\"; do last=\"$a\"; done\ncase \"$last\" in\n *.ctu-info) cat '%s/ctu.txt'; exit 0;;\nesac\ncat '%s/lines.txt'\nexit %d\n" % (d, d, exitcode))
+    open(sh, "w").write("#!/bin/sh\nfor a in \"$@\"; do last=\"$a\"; done\ncase \"$last\" in\n *.ctu-info) cat '%s/ctu.txt'; exit 0;;\n%sesac\nexit 0\n" % (d, branches))
     os.chmod(sh, os.stat(sh).st_mode | stat.S_IEXEC)
     cfg = dict(executable=sh)
     if ctu_lines is not None:
@@ -138,43 +238,51 @@ def write_addon(d, name, lines, exitcode, ctu_lines=None):
     open(os.path.join(d, name + ".json"), "w").write(json.dumps(cfg))
 
 
-def parse_xml(err_text, addon):
-    """findings of the addon (and internalError) from --xml output on stderr"""
+def parse_xml(err_text, addon, files=("t.c",)):
+    """per checked file: the findings of the addon and internalError from --xml output on stderr (attributed through file0 / the
+    location); also the ids of all other findings"""
     start = err_text.find("<?xml")
     if start < 0:
-        return None
+        return None, None
     try:
         root = ET.fromstring(err_text[start:])
     except ET.ParseError:
-        return None
-    res = []
+        return None, None
+    res, others = {f: [] for f in files}, []
     for e in root.iter("error"):
         i = e.get("id")
         if not (i.startswith(addon + "-") or i == "internalError"):
+            if i != "checkersReport":
+                others.append(i)
             continue
         locs = [(l.get("file"), l.get("line"), l.get("column"), l.get("info") or "") for l in e.findall("location")]
-        res.append(dict(id=i, sev=e.get("severity"), msg=e.get("msg"), cwe=e.get("cwe"), locs=locs))
-    return res
+        f0 = e.get("file0") or (locs[0][0] if locs else None)
+        if f0 not in res:
+            others.append("%s attributed to %s" % (i, f0))
+            continue
+        res[f0].append(dict(id=i, sev=e.get("severity"), msg=e.get("msg"), cwe=e.get("cwe"), locs=locs))
+    return res, others
 
 
-def model_findings(mo):
-    """driver output -> (failed, [finding dicts in the xml vocabulary])"""
-    parts = mo.split(" ")
-    failed = parts[0] == "failed"
+def u8(hexs):
+    return core.unhx(hexs).decode("latin-1").encode("latin-1").decode("utf-8")
+
+
+def model_findings(parts):
+    """driver finding fields -> finding dicts in the xml vocabulary"""
     fs = []
-    for p in parts[1:]:
+    for p in parts:
         if not p:
             continue
         i, sev, msg, locs, cwe, h = p.split("|")
         L = []
         for l in [x for x in locs.split(",") if x]:
             f, ln, c, info = l.split("@")
-            L.append((core.unhx(f).decode("latin-1").encode("latin-1").decode("utf-8"), ln, c, core.unhx(info).decode("latin-1").encode("latin-1").decode("utf-8")))
+            L.append((u8(f), ln, c, u8(info)))
         # XML lists the call stack newest first
         L = list(reversed(L))
-        fs.append(dict(id=core.unhx(i).decode("latin-1").encode("latin-1").decode("utf-8"), sev=sev,
-                       msg=core.unhx(msg).decode("latin-1").encode("latin-1").decode("utf-8"), cwe=None if cwe in ("~", "0") else cwe, locs=L))
-    return failed, fs
+        fs.append(dict(id=u8(i), sev=sev, msg=u8(msg), cwe=None if cwe in ("~", "0") else cwe, locs=L))
+    return fs
 
 
 def fix_invalid(s):
@@ -189,141 +297,333 @@ def norm(f, model=False):
     return (f["id"], f["sev"], fix_invalid(f["msg"]) if model else f["msg"], tuple(f["locs"]), f["cwe"])
 
 
-def run_case(ctx, k, case):
+def supp_args(supps):
+    out = []
+    for (i, f, n) in supps:
+        s = i if i is not None else "*"
+        if f is not None:
+            s += ":" + f
+            if n is not None:
+                s += ":%d" % n
+        out.append("--suppress=" + s)
+    return out
+
+
+def enc_supps(supps):
+    def h(x):
+        return "~" if x is None else core.hx(x)
+    return ",".join("%s/%s/%s" % (h(i), h(f), "~" if n is None else str(n)) for (i, f, n) in supps) or "."
+
+
+def run_proc(ctx, k, cases):
+    """one cppcheck process checking the files of all the given cases (they share addon name, severities, suppressions, build dir)"""
+    c0 = cases[0]
     d = os.path.join(ctx.tmp, "c%d" % k)
     os.makedirs(d, exist_ok=True)
-    open(os.path.join(d, "t.c"), "w").write("void f(void)\n{\n  int x = 1;\n  (void)x;\n}\n")
-    write_addon(d, case["addon"], case["lines"], case["exitcode"], case.get("ctu"))
-    args = [ctx.cppcheck, "-q", "--xml", "--error-exitcode=9", "--addon=%s.json" % case["addon"]]
-    en = [s for s in ("warning", "style", "performance", "portability", "information") if s in case["enabled"]]
+    files = [names(c.get("idx"))["t"] for c in cases]
+    for f in files:
+        open(os.path.join(d, f), "w").write("void f(void)\n{\n  int x = 1;\n  (void)x;\n}\n")
+    write_addon(d, c0["addon"], cases, c0.get("ctu"))
+    args = [ctx.cppcheck, "-q", "--xml", "--error-exitcode=9", "--addon=%s.json" % c0["addon"]]
+    en = [s for s in ("warning", "style", "performance", "portability", "information") if s in c0["enabled"]]
     if en:
         args.append("--enable=" + ",".join(en))
-    if "debug" in case["enabled"]:
+    if "debug" in c0["enabled"]:
         args.append("--debug-warnings")
-    if case.get("suppress"):
-        args.append("--suppress=" + case["suppress"])
-    if case.get("builddir"):
+    args += supp_args(c0.get("supps", []))
+    if c0.get("builddir"):
         os.makedirs(os.path.join(d, "bd"), exist_ok=True)
         args.append("--cppcheck-build-dir=bd")
-    args += case.get("extra", [])
-    args.append("t.c")
-    rc, so, se = core.sh(args, cwd=d, timeout=120)
-    return d, rc, so, se
+    args += c0.get("extra", [])
+    args += files
+    rc, so, se = core.sh(args, cwd=d, timeout=300)
+    shutil.rmtree(d, ignore_errors=True)
+    return rc, so, se
 
 
-def evaluate(ctx, res, drv, case, k, run):
-    d, rc, so, se = run
-    addon = case["addon"]
-    desc = dict(lines=[l["text"] for l in case["lines"]], exitcode=case["exitcode"], enabled=sorted(case["enabled"]), suppress=case.get("suppress"))
-    if rc not in (0, 9):
-        res.violation("cppcheck terminated abnormally (status %s) on addon output" % rc, dict(case=desc, stderr=se[-1500:]), concrete=True, key=None)
-        return None
-    got = parse_xml(se, addon)
-    if got is None:
-        res.violation("cppcheck --xml output not parsable after addon run", dict(case=desc, stderr=se[-1500:]), concrete=True, key=None)
-        return None
+def eff_enabled(case):
     # cppcheck's CLI: --enable=style also enables warning, performance and portability
     eff = set(case["enabled"]) | {"error"}
     if "style" in eff:
         eff |= {"warning", "performance", "portability"}
-    case = dict(case, enabled=eff)
-    mask = sum(1 << SEVBIT[s] for s in eff)
-    op = "relay %d %d %s" % (case["exitcode"], mask, " ".join(enc_line(l) for l in case["lines"]))
-    rc2, mo, me = core.run_lines(drv, [], [op])
-    if not mo or mo[0] == "bad-op":
-        raise core.CheckBroken("C34 driver rejected op: " + op[:300])
-    failed, want = model_findings(mo[0])
-    # findings of severity internal (-logChecker notes) are consumed by the checkers report and never printed
-    want = [f for f in want if f["sev"] != "internal"]
-    sup = case.get("suppress")
-    if sup:
-        want = [f for f in want if f["id"] != sup]
-    got_add = [f for f in got if f["id"] != "internalError"]
-    got_int = [f for f in got if f["id"] == "internalError"]
-    ok = [norm(f) for f in got_add] == [norm(f, True) for f in want] and (len(got_int) > 0) == failed
-    nobj = sum(1 for l in case["lines"] if l["kind"] == "obj")
-    res.case("relay|" + op + "|" + str(sup), nobj >= 2, dict(case=desc, impl=[norm(f) for f in got], model=mo[0][:300]) if k % 9 == 0 else None)
-    res.count("lines:%d" % len(case["lines"]))
-    res.count("failed" if failed else "ok")
+    return eff
+
+
+def brace_lines(text):
+    """the lines std::getline yields that go to the JSON reader (python's own reading of executeAddon's loop)"""
+    ls = text.split("\n")
+    if ls and ls[-1] == "":
+        ls.pop()
+    return [l for l in ls if l and not l.startswith("Checking ") and l[0] == "{"]
+
+
+def hexu(s):
+    return core.hx(s.encode("utf-8").decode("latin-1"))
+
+
+def py_supp(supps, f, file0=FILE0):
+    """python's own reading of the glob-free suppression fragment for a finding tuple"""
+    for (i, fl, n) in supps:
+        if i is not None and i != f["id"]:
+            continue
+        last = f["xlocs"][-1] if f["xlocs"] else None
+        if fl is not None and fl != (last[0] if last else file0):
+            continue
+        if n is not None and (last is None or last[1] != n):
+            continue
+        return True
+    return False
+
+
+def good_finding(o, addon):
+    """the finding a well-formed object line describes (python's own reading), None if the line is not a well-formed finding"""
+    if "summary" in o or "metric" in o:
+        return None
+    if not all(isinstance(o.get(x), str) for x in ("severity", "message", "addon", "errorId")):
+        return None
+    if "cwe" in o and not is_int(o["cwe"]) or "hash" in o and not is_int(o["hash"]):
+        return None
+    if "file" in o:
+        if not (isinstance(o["file"], str) and is_int(o.get("linenr")) and is_int(o.get("column"))):
+            return None
+        xlocs = [(o["file"], o["linenr"], o["column"], "")]
+    elif "loc" in o:
+        if not isinstance(o["loc"], list):
+            return None
+        xlocs = []
+        for it in o["loc"]:
+            if not (isinstance(it, dict) and isinstance(it.get("file"), str) and is_int(it.get("linenr")) and is_int(it.get("column")) and isinstance(it.get("info"), str)):
+                return None
+            xlocs.append((it["file"], it["linenr"], it["column"], it["info"]))
+    else:
+        xlocs = []
+    return dict(id=o["addon"] + "-" + o["errorId"], sev=o["severity"], msg=o["message"], xlocs=xlocs,
+                cwe=str(o["cwe"]) if o.get("cwe") else None)
+
+
+def render_key(f):
+    if len(f["xlocs"]) >= 2:
+        L = tuple((a, b, c, i or f["msg"]) for (a, b, c, i) in f["xlocs"])
+    else:
+        L = tuple((a, b, c) for (a, b, c, i) in f["xlocs"])
+    return (f["id"], f["sev"], f["msg"], L)
+
+
+def xml_tuple(f):
+    return (f["id"], f["sev"], fix_invalid(f["msg"]), tuple((a, str(b), str(c), i) for (a, b, c, i) in reversed(f["xlocs"])), f["cwe"])
+
+
+def p_impl(res, case, got_add, desc):
+    """model-free: every well-formed line of an enabled, unsuppressed severity in front of the first ill-formed object is reported
+    with all its fields, once per rendered text"""
+    if case["exitcode"] != 0 or any(l["kind"] == "notbrace" for l in case["lines"]):
+        return
+    eff = eff_enabled(case)
+    groups, order = {}, []
     for l in case["lines"]:
-        res.count("kind:" + l["kind"])
-    # exit status: 9 iff something non-internal was reported (addon finding or internalError); other built-in findings none for t.c
-    reported = [f for f in got if f["sev"] != "internal"]
-    # other built-in findings (e.g. debug messages, unmatchedSuppression) also set the status: only judge runs without them
-    start = se.find("<?xml")
-    others = [e.get("id") for e in ET.fromstring(se[start:]).iter("error")
-              if not (e.get("id").startswith(addon + "-") or e.get("id") in ("internalError", "checkersReport"))]
-    if not others and (rc == 9) != (len(reported) > 0):
-        res.violation("exit status %d does not reflect the reported addon findings (%d)" % (rc, len(reported)), dict(case=desc), concrete=True, key=None)
-    # P_impl (independent): each well-formed single-location line of an enabled severity exactly once
-    if case["exitcode"] == 0 and not any(l["kind"] == "notbrace" for l in case["lines"]):
-        cut = False
-        for l in case["lines"]:
-            if l["kind"] != "obj":
+        if l["kind"] != "obj":
+            continue
+        o = l["obj"]
+        f = good_finding(o, case["addon"])
+        if f is None:
+            if "summary" in o:
                 continue
-            o = l["obj"]
-            good = (set(o) >= {"file", "linenr", "column", "severity", "message", "addon", "errorId"} and "summary" not in o and "metric" not in o
-                    and isinstance(o["file"], str) and type(o["linenr"]) is int and type(o["column"]) is int and all(isinstance(o[x], str) for x in ("severity", "message", "addon", "errorId"))
-                    and type(o.get("cwe", 0)) is int and type(o.get("hash", 0)) is int)
-            if not good:
-                if "summary" in o:
-                    continue
-                cut = True    # later lines may legitimately be lost after an ill-typed one
-                continue
-            if cut:
-                continue
-            sev = o["severity"]
-            if sev in case["enabled"] | {"error"} and sev in SEVBIT:
-                i = addon + "-" + o["errorId"]
-                if i == sup:
-                    continue
-                n = sum(1 for f in got_add if f["id"] == i and f["sev"] == sev and f["msg"] == fix_invalid(o["message"]) and f["locs"] and f["locs"][0][:3] == (o["file"], str(o["linenr"]), str(o["column"])))
-                if n != 1:
-                    res.violation("well-formed addon line of enabled severity reported %d times: %s" % (n, l["text"][:200]), dict(case=desc, got=[norm(f) for f in got]), concrete=True, key=None)
-    return ok, dict(case=desc, impl=[norm(f) for f in got], model=mo[0][:600])
+            break           # a metric or an ill-formed object: later lines may legitimately be lost - not judged
+        if f["sev"] not in SEVBIT or f["sev"] not in eff or py_supp(case.get("supps", []), f, names(case.get("idx"))["t"]):
+            continue
+        k = render_key(f)
+        if k not in groups:
+            groups[k] = []
+            order.append(k)
+        groups[k].append((f, l["text"]))
+    got = [norm(g) for g in got_add]
+    for k in order:
+        first, text = groups[k][0]
+        n = got.count(xml_tuple(first))
+        if n != 1:
+            res.violation("well-formed addon line of an enabled severity reported %d times: %s" % (n, text[:200]), dict(case=desc, got=got), concrete=True, key=None)
+        for (f, t) in groups[k][1:]:
+            if xml_tuple(f) != xml_tuple(first) and xml_tuple(f) not in got:
+                res.violation("addon finding not reported because an earlier one renders to the same text (differs in cwe / info): %s" % t[:200],
+                              dict(case=desc, got=got), concrete=True, key="dup-text-loses-cwe-or-info")
 
 
-def gen_case(rng):
+def gen_supps(rng, addon, cases):
+    fs = [(f, names(c.get("idx"))["t"]) for c in cases for f in (good_finding(l["obj"], addon) for l in c["lines"] if l["kind"] == "obj") if f]
+    supps = []
+    for _ in range(rng.choice([1, 1, 2])):
+        if fs and rng.random() < 0.85:
+            f, file0 = rng.choice(fs)
+            last = f["xlocs"][-1] if f["xlocs"] else (file0, 0, 0, "")
+            m = rng.random()
+            if m < 0.5:
+                s1 = (f["id"], None, None)
+            elif m < 0.7:
+                s1 = (f["id"], last[0], None)
+            elif m < 0.9:
+                s1 = (f["id"], last[0], rng.choice([last[1], last[1], 2]))
+            else:
+                s1 = (None, last[0], None)
+        else:
+            s1 = (rng.choice([addon + "-nothing", "internalError"]), None, None)
+        if s1 not in supps:          # the command line rejects a suppression given twice
+            supps.append(s1)
+    return supps
+
+
+def gen_batch(rng, size):
+    """cases that run in ONE cppcheck process: same addon name, severities, suppressions, build dir; own files and output each"""
     addon = rng.choice(["myaddon", "misra2", "y2038x"])
     enabled = set(s for s in ("warning", "style", "performance", "portability", "information") if rng.random() < 0.7)
     if rng.random() < 0.1:
         enabled.add("debug")
-    case = dict(addon=addon, lines=gen_lines(rng, addon), exitcode=rng.choice([0, 0, 0, 0, 0, 1, 3]), enabled=enabled)
-    if rng.random() < 0.25:
-        ids = [addon + "-" + l["obj"].get("errorId") for l in case["lines"] if l["kind"] == "obj" and isinstance(l["obj"].get("errorId"), str)]
-        if ids:
-            case["suppress"] = rng.choice(ids)
-    if rng.random() < 0.3:
-        case["builddir"] = True
-    return case
+    cases = []
+    for j in range(size):
+        c = dict(addon=addon, idx=j if size > 1 else None, exitcode=rng.choice([0, 0, 0, 0, 0, 0, 1, 3]), enabled=enabled)
+        c["lines"] = gen_lines(rng, addon, names(c["idx"]))
+        if rng.random() < 0.15 and c["lines"] and c["lines"][-1]["text"] != "":
+            c["no_final_newline"] = True          # (a final empty line without newline does not exist for getline)
+        cases.append(c)
+    supps = gen_supps(rng, addon, cases) if rng.random() < 0.35 else []
+    bd = rng.random() < 0.3
+    for c in cases:
+        c["supps"] = supps
+        c["builddir"] = bd
+    return cases
+
+
+MALFORMED = ("exit", "nonbrace", "illtyped", "skipped")
+
+
+def model_ops(cases, view):
+    ops = []
+    for c in cases:
+        t = case_text(c)
+        mask = sum(1 << SEVBIT[s] for s in eff_enabled(c))
+        ops.append("relay %d %d %s %s %s %s" % (c["exitcode"], mask, core.hx(names(c.get("idx"))["t"]), enc_supps(c.get("supps", [])), hexu(t),
+                                                " ".join(view[b] for b in brace_lines(t))))
+    return ops
 
 
 def run(ctx, res):
+    res.assumptions = list(ASSUMPTIONS)
     core.prove(ctx, res, MODULES, THEOREMS)
     drv = ctx.driver("drv_c34")
+    hexe = ctx.harness("c34")
     rng = ctx.rng
-    n = 300 if ctx.tier == "thorough" else 45
-    cases = load_corpus() + [gen_case(rng) for _ in range(n)]
+    nb, size, nsingle = (60, 20, 60) if ctx.tier == "thorough" else (14, 20, 12)
+    # processes: every corpus case and some generated ones on their own (exit status per case), the rest 20 files per process
+    procs = [[c] for c in load_corpus()] + [gen_batch(rng, 1) for _ in range(nsingle)] + [gen_batch(rng, size) for _ in range(nb)]
+    cases = [c for p in procs for c in p]
+    texts = [case_text(c) for c in cases]
+
+    # C2: the real JSON reader on every brace line (+ python's own view of the lines it built)
+    blines = []
+    for t in texts:
+        blines += brace_lines(t)
+    uniq = sorted(set(blines))
+    rc, hv, he = core.run_lines(hexe, [], ["parse " + hexu(b) for b in uniq])
+    if len(hv) != len(uniq):
+        raise core.CheckBroken("C34 harness answered %d of %d lines: %s" % (len(hv), len(uniq), he[-300:]))
+    view = dict(zip(uniq, hv))
+    bad_v = []
+    for c in cases:
+        for l in c["lines"]:
+            if l["kind"] in ("obj", "badjson"):
+                want = "B" if l["kind"] == "badjson" else enc_obj(l["obj"])
+                res.count("json:" + ("object" if want != "B" else "rejected"))
+                if view.get(l["text"]) != want:
+                    bad_v.append(dict(text=l["text"], picojson=view.get(l["text"]), python=want))
+    res.oblig("correspondence:json-member-view", not bad_v, "correspondence",
+              "" if not bad_v else "%d lines: the member view python assumes differs from what picojson reads; first: %s" % (len(bad_v), json.dumps(bad_v[0], ensure_ascii=False)[:900]))
+
+    # model on the raw text
+    ops = model_ops(cases, view)
+    rc2, mo, me = core.run_lines(drv, [], ops)
+    if len(mo) != len(ops) or any(x.startswith("bad-op") for x in mo):
+        badi = next((i for i, x in enumerate(mo) if x.startswith("bad-op")), 0)
+        raise core.CheckBroken("C34 driver rejected an op (%s): %s" % (mo[badi] if mo else me[-200:], ops[badi][:300]))
+
+    # the real binary
     with ThreadPoolExecutor(max_workers=8) as ex:
-        runs = list(ex.map(lambda kc: run_case(ctx, kc[0], kc[1]), list(enumerate(cases))))
-    bad = []
-    for k, case in enumerate(cases):
-        r = evaluate(ctx, res, drv, case, k, runs[k])
-        shutil.rmtree(runs[k][0], ignore_errors=True)
-        if r is not None:
-            if r[0]:
+        runs = list(ex.map(lambda kp: run_proc(ctx, kp[0], kp[1]), list(enumerate(procs))))
+
+    bad, bad_k = [], []
+    seen_class = {}
+    k = -1
+    for pi, proc in enumerate(procs):
+        rc, so, se = runs[pi]
+        files = [names(c.get("idx"))["t"] for c in proc]
+        pdesc = [dict(text=case_text(c), exitcode=c["exitcode"], enabled=sorted(c["enabled"]), supps=c.get("supps"), builddir=bool(c.get("builddir")), file=f) for c, f in zip(proc, files)]
+        res.count("process:%d-files:rc%s" % (len(proc), rc))
+        gotall, others = parse_xml(se, proc[0]["addon"], files) if rc in (0, 9) else (None, None)
+        if rc not in (0, 9):
+            cls = sorted(set(mo[k + 1 + j].split(" ")[1] for j in range(len(proc))))
+            res.violation("cppcheck terminated abnormally (status %s) on addon output (classes in the process: %s)" % (rc, cls),
+                          dict(case=pdesc[0], cases=pdesc if len(proc) > 1 else None, stderr=se[-1500:]), concrete=True, key=None)
+        elif gotall is None:
+            res.violation("cppcheck --xml output not parsable after addon run", dict(case=pdesc[0], cases=pdesc if len(proc) > 1 else None, stderr=se[-1500:]), concrete=True, key=None)
+        any_reported, want_exit = False, 0
+        for j, case in enumerate(proc):
+            k += 1
+            parts = mo[k].split(" ")
+            failed, cls, mexit, ie, kinds = parts[0] == "failed", parts[1], int(parts[2]), parts[3] == "1", parts[4][1:]
+            want = model_findings(parts[5:])
+            desc = pdesc[j]
+            # line classification: python's construction against the Lean classification of the raw text
+            pk = "".join(KINDCH[l["kind"]] for l in case["lines"])
+            if pk != kinds:
+                bad_k.append(dict(text=desc["text"], python=pk, lean=kinds))
+            nobj = kinds.count("O")
+            res.count("lines:%d" % len(case["lines"]))
+            res.count("class:" + cls)
+            for ch in kinds:
+                res.count("kind:" + ch)
+            if case.get("supps"):
+                res.count("with-suppressions")
+            if gotall is None:
+                continue
+            # never a crash: the observed status, per class of malformed output
+            res.count("class:%s:normal-exit" % cls)
+            seen_class[cls] = seen_class.get(cls, 0) + 1
+            got = gotall[files[j]]
+            got_add = [f for f in got if f["id"] != "internalError"]
+            got_int = [f for f in got if f["id"] == "internalError"]
+            ok = [norm(f) for f in got_add] == [norm(f, True) for f in want] and (len(got_int) > 0) == ie
+            any_reported = any_reported or len(got) > 0
+            want_exit = max(want_exit, mexit)
+            res.case("relay|" + ops[k], nobj >= 2, dict(case=desc, impl=[norm(f) for f in got], model=mo[k][:300]) if k % 40 == 0 else None)
+            p_impl(res, case, got_add, desc)
+            if ok:
                 res.traces_validated += 1
             else:
-                bad.append(r[1])
+                bad.append(dict(case=desc, rc=rc, impl=[norm(f) for f in got], model=mo[k][:600]))
+        # exit status (other built-in findings - debug messages, unmatchedSuppression - also set it: only judged without them)
+        if gotall is not None and not others:
+            if rc != want_exit:
+                bad.append(dict(case=pdesc[0], cases=len(proc), rc=rc, model="exit status %d" % want_exit))
+            if (rc == 9) != any_reported:
+                res.violation("exit status %d does not reflect the reported addon findings" % rc, dict(case=pdesc[0], cases=pdesc if len(proc) > 1 else None), concrete=True, key=None)
     res.oblig("correspondence:addon-relay", not bad, "correspondence",
               "" if not bad else "%d of %d addon outputs relayed differently from the model; first: %s" % (len(bad), len(cases), json.dumps(bad[0], ensure_ascii=False)[:1800]))
+    res.oblig("correspondence:line-classification", not bad_k, "correspondence",
+              "" if not bad_k else "%d outputs: the Lean classification of the raw lines differs from the generator's; first: %s" % (len(bad_k), json.dumps(bad_k[0])[:1600]))
+    missing = [c for c in MALFORMED if not seen_class.get(c)]
+    res.oblig("coverage:malformed-classes-observed", not missing, "correspondence",
+              "" if not missing else "no run with a normal exit status observed for malformed-output class(es) %s" % missing)
+    # the disagreements are concrete failing inputs: store the first ones for replay
+    for b in bad[:3]:
+        res.violation("addon output relayed differently from the model (rc=%s)" % b["rc"], dict(case=b["case"], impl=b.get("impl"), model=b["model"]), concrete=True, key=None)
+
     # summaries of several addons must all reach the whole-program phase (with and without build dir)
     bad_s = []
-    nsum = 12 if ctx.tier == "thorough" else 4
-    for k in range(nsum):
-        r = summary_case(ctx, res, drv, rng, 7000 + k, builddir=(k % 2 == 0))
-        if r is not None:
-            bad_s.append(r)
+    nsum = 40 if ctx.tier == "thorough" else 12
+    with ThreadPoolExecutor(max_workers=6) as ex:
+        rs = list(ex.map(lambda k: summary_run(ctx, rng_fork(rng, k), 7000 + k, builddir=(k % 2 == 0)), range(nsum)))
+    for k, r in enumerate(rs):
+        b = summary_eval(ctx, res, drv, r, k)
+        if b is not None:
+            bad_s.append(b)
     res.oblig("correspondence:summaries-forwarded", not bad_s, "correspondence",
               "" if not bad_s else "%d of %d multi-addon runs: ctu-info seen by the whole-program phase differs from the model; first: %s" % (len(bad_s), nsum, json.dumps(bad_s[0])[:1200]))
     # whole-program phase: ill-typed output of a ctu addon must not terminate the process (fixed by 9260697)
@@ -331,23 +631,30 @@ def run(ctx, res):
                       ctu=[dict(kind="obj", text='{"file":"t.c","linenr":"1","column":3,"severity":"style","message":"illtyped","addon":"ctuaddon","errorId":"e2"}')],
                       builddir=b) for b in (False, True)]
     for k, case in enumerate(ctu_cases):
-        d, rc, so, se = run_case(ctx, 9000 + k, case)
+        rc, so, se = run_proc(ctx, 9000 + k, [case])
         res.case("ctu|%s" % case["builddir"], True, None)
-        got = parse_xml(se, "ctuaddon")
-        if rc not in (0, 9) or got is None or not any(f["id"] == "internalError" for f in got):
-            res.violation("ill-typed addon output in the whole-program phase: status %s, internalError reported: %s" % (rc, bool(got) and any(f["id"] == "internalError" for f in got)),
+        res.count("class:wholeprogram-illtyped:rc%s" % rc)
+        ie = "internalError" in se and "<?xml" in se
+        if rc not in (0, 9) or not ie:
+            res.violation("ill-typed addon output in the whole-program phase: status %s, internalError reported: %s" % (rc, ie),
                           dict(case="ctu addon prints linenr as string", builddir=case["builddir"], stderr=se[-800:]), concrete=True, key=None)
-        shutil.rmtree(d, ignore_errors=True)
 
 
-def summary_case(ctx, res, drv, rng, k, builddir):
-    """2..3 scripted ctu addons, each printing some summary lines (canonical JSON) and some findings in the per-file phase;
-    in the whole-program phase each script copies the ctu-info it is given.  P_impl: every summary of every addon is there."""
+def rng_fork(rng, k):
+    import random
+    return random.Random(rng.getrandbits(48) * 1000 + k)
+
+
+def summary_run(ctx, rng, k, builddir):
+    """2..3 scripted ctu addons, each printing summary lines interleaved with findings, skipped lines and now and then an
+    ill-typed object or a non-brace line; in the whole-program phase each script copies the ctu-info it is given.  Every
+    script appends its name to order.txt when it runs in the per-file phase (Settings::addons is an unordered_set)."""
     d = os.path.join(ctx.tmp, "s%d" % k)
     os.makedirs(d, exist_ok=True)
     open(os.path.join(d, "t.c"), "w").write("void f(void)\n{\n  int x = 1;\n  (void)x;\n}\n")
     naddons = rng.choice([2, 2, 3])
-    outs, args = [], [ctx.cppcheck, "-q", "--xml", "--enable=style"]
+    hard = rng.random() < 0.4
+    outs, args = {}, [ctx.cppcheck, "-q", "--xml", "--enable=style"]
     for a in range(naddons):
         name = "sa%d" % a
         lines = []
@@ -356,10 +663,18 @@ def summary_case(ctx, res, drv, rng, k, builddir):
         if rng.random() < 0.5:
             o = dict(file="t.c", linenr=1, column=1, severity="style", message="m", addon=name, errorId="e", extra="")
             lines.insert(rng.randrange(len(lines) + 1), dict(kind="obj", obj=o, text=json.dumps(o)))
-        outs.append(lines)
+        if rng.random() < 0.3:
+            lines.insert(rng.randrange(len(lines) + 1), rng.choice([dict(kind="empty", text=""), dict(kind="checking", text="Checking t.c..."), dict(kind="badjson", text='{"a":}')]))
+        if hard and rng.random() < 0.5:
+            if rng.random() < 0.6:
+                o = dict(file="t.c", linenr="1", column=1, severity="style", message="ill", addon=name, errorId="e")
+                lines.insert(rng.randrange(len(lines) + 1), dict(kind="obj", obj=o, text=json.dumps(o)))
+            else:
+                lines.insert(rng.randrange(len(lines) + 1), dict(kind="notbrace", text="oops"))
+        outs[name] = lines
         open(os.path.join(d, name + ".txt"), "w").write("".join(l["text"] + "\n" for l in lines))
         sh = os.path.join(d, name + ".sh")
-        open(sh, "w").write("#!/bin/sh\nfor a in \"$@\"; do last=\"$a\"; done\ncase \"$last\" in\n *.ctu-info) cat \"$last\" > '%s/seen_%s.txt'; exit 0;;\n *filelist*|*.txt) while read f; do cat \"$f\"; done < \"$last\" > '%s/seen_%s.txt'; exit 0;;\nesac\ncat '%s/%s.txt'\nexit 0\n" % (d, name, d, name, d, name))
+        open(sh, "w").write("#!/bin/sh\nfor a in \"$@\"; do last=\"$a\"; done\ncase \"$last\" in\n *.ctu-info) cat \"$last\" > '%s/seen_%s.txt'; exit 0;;\n *filelist*|*.txt) while read f; do cat \"$f\"; done < \"$last\" > '%s/seen_%s.txt'; exit 0;;\nesac\necho %s >> '%s/order.txt'\ncat '%s/%s.txt'\nexit 0\n" % (d, name, d, name, name, d, d, name))
         os.chmod(sh, os.stat(sh).st_mode | stat.S_IEXEC)
         open(os.path.join(d, name + ".json"), "w").write(json.dumps(dict(executable=sh, ctu=True)))
         args.append("--addon=%s.json" % name)
@@ -368,31 +683,47 @@ def summary_case(ctx, res, drv, rng, k, builddir):
         args.append("--cppcheck-build-dir=bd")
     args.append("t.c")
     rc, so, se = core.sh(args, cwd=d, timeout=120)
-    op = "ctuinfo 63 " + " / ".join(" ".join(enc_line(l) for l in ls) or "E" for ls in outs)
-    rc2, mo, me = core.run_lines(drv, [], [op])
-    want = [core.unhx(x).decode() for x in (mo[0].split(" ")[1:] if mo and mo[0].startswith("ctu") else []) if x]
+    p = os.path.join(d, "order.txt")
+    order = open(p).read().split() if os.path.exists(p) else []
     seen = {}
-    for a in range(naddons):
-        p = os.path.join(d, "seen_sa%d.txt" % a)
-        seen["sa%d" % a] = [json.loads(l)["summary"] for l in open(p).read().split("\n") if l.strip().startswith("{")] if os.path.exists(p) else None
-    res.case("summaries|" + op + "|%s" % builddir, sum(len(x) for x in outs) >= 2, dict(addons=[[l["text"] for l in ls] for ls in outs], builddir=builddir, seen=seen, model=want) if k % 2 == 0 else None)
+    for name in outs:
+        p = os.path.join(d, "seen_%s.txt" % name)
+        seen[name] = [json.loads(l)["summary"] for l in open(p).read().split("\n") if l.strip().startswith("{")] if os.path.exists(p) else None
     shutil.rmtree(d, ignore_errors=True)
-    all_expected = [l["obj"]["summary"] for ls in outs for l in ls if "summary" in l["obj"]]
+    return dict(outs=outs, order=order, seen=seen, rc=rc, builddir=builddir, k=k)
+
+
+def summary_eval(ctx, res, drv, r, k):
+    """P_impl: without an ill-typed object every summary of every addon (that is not discarded by a non-brace line) is there.
+    Correspondence: the ctu-info equals the model's (addons in the order they ran)."""
+    outs, order, seen, builddir = r["outs"], r["order"], r["seen"], r["builddir"]
+    names = [n for n in order if n in outs] + [n for n in outs if n not in order]
+    op = "ctuinfo %d 63 " % (1 if builddir else 0) + " / ".join(" ".join(enc_line(l) for l in outs[n]) or "E" for n in names)
+    rc2, mo, me = core.run_lines(drv, [], [op])
+    if not mo or not mo[0].startswith("ctu"):
+        raise core.CheckBroken("C34 driver rejected op: " + op[:300])
+    want = [core.unhx(x).decode() for x in mo[0].split(" ")[1:] if x]
+    illtyped = any(l["kind"] == "obj" and "summary" not in l["obj"] and good_finding(l["obj"], n) is None for n in outs for l in outs[n])
+    res.case("summaries|" + op, sum(len(x) for x in outs.values()) >= 2,
+             dict(addons={n: [l["text"] for l in outs[n]] for n in names}, builddir=builddir, seen=seen, model=want) if k % 4 == 0 else None)
+    res.count("ctu:" + ("illtyped" if illtyped else "plain") + (":builddir" if builddir else ""))
+    if r["rc"] not in (0, 9):
+        res.violation("cppcheck terminated abnormally (status %s) in a multi-addon run" % r["rc"], dict(addons={n: [l["text"] for l in outs[n]] for n in names}, builddir=builddir), concrete=True, key=None)
+        return None
+    all_expected = [l["obj"]["summary"] for n in names if not any(x["kind"] == "notbrace" for x in outs[n]) for l in outs[n] if l["kind"] == "obj" and "summary" in l["obj"]]
     problems = []
     for a, got in seen.items():
         if got is None:
-            if all_expected:
+            if all_expected and not illtyped:
                 problems.append("%s was not called for the whole-program phase" % a)
             continue
-        if sorted(got) != sorted(all_expected):
-            res.violation("addon summaries lost on the way to whole-program analysis (builddir=%s): %s received %s, the addons printed %s" % (builddir, a, got, all_expected),
-                          dict(addons=[[l["text"] for l in ls] for ls in outs], builddir=builddir, seen=seen), concrete=True, key=None)
-        # the addons run in the iteration order of Settings::addons (an unordered_set): compare up to the order of the addon
-        # groups, but the summaries of ONE addon must keep their order
-        within = all([x for x in got if x.startswith(n + "_")] == [x for x in want if x.startswith(n + "_")] for n in seen)
-        if sorted(got) != sorted(want) or not within:
+        if not illtyped:
+            if sorted(got) != sorted(all_expected) or len(order) != len(outs):
+                res.violation("addon summaries lost on the way to whole-program analysis (builddir=%s): %s received %s, the addons printed %s" % (builddir, a, got, all_expected),
+                              dict(addons={n: [l["text"] for l in outs[n]] for n in names}, builddir=builddir, seen=seen), concrete=True, key=None)
+        if got != want:
             problems.append("%s: impl %s model %s" % (a, got, want))
-    return dict(problems=problems, builddir=builddir) if problems else None
+    return dict(problems=problems, builddir=builddir, addons={n: [l["text"] for l in outs[n]] for n in names}) if problems else None
 
 
 def load_corpus():
@@ -402,9 +733,39 @@ def load_corpus():
     cs = json.load(open(p))
     for c in cs:
         c["enabled"] = set(c["enabled"])
+        c["supps"] = [tuple(s) for s in c.get("supps", [])]
     return cs
 
 
 def replay(ctx, res, rp):
-    print("replay: re-run ./check.py C34 (cases are regenerated from VERIF_SEED=%s)" % rp.get("seed"))
-    return 0
+    """re-run one stored addon output (raw text) on the real binary, in a process of its own, and compare with the model"""
+    c = rp.get("case")
+    if not isinstance(c, dict) or "text" not in c:
+        print("replay: re-run ./check.py C34 (cases are regenerated from VERIF_SEED=%s)" % rp.get("seed"))
+        return 0
+    drv = ctx.driver("drv_c34")
+    hexe = ctx.harness("c34")
+    text = c["text"]
+    f0 = c.get("file") or "t.c"
+    idx = int(f0[1:3]) if f0 != "t.c" else None
+    case = dict(addon="myaddon", idx=idx, lines=[dict(kind="raw", text=text)], exitcode=c["exitcode"], enabled=set(c["enabled"]),
+                supps=[tuple(s) for s in (c.get("supps") or [])], builddir=c.get("builddir"), no_final_newline=True)
+    for a in ("misra2", "y2038x"):
+        if '"addon": "%s"' % a in text or '"addon":"%s"' % a in text or '"addon" : "%s"' % a in text:
+            case["addon"] = a
+    bl = brace_lines(text)
+    rc, hv, he = core.run_lines(hexe, [], ["parse " + hexu(b) for b in bl])
+    op = model_ops([case], dict(zip(bl, hv)))[0]
+    rc2, mo, me = core.run_lines(drv, [], [op])
+    rc, so, se = run_proc(ctx, 0, [case])
+    gotall, others = parse_xml(se, case["addon"], [f0])
+    parts = mo[0].split(" ")
+    want = model_findings(parts[5:])
+    print("replay: status %s; model: %s" % (rc, mo[0][:300]))
+    if rc not in (0, 9) or gotall is None:
+        print("replay: " + se[-400:])
+        return 1
+    got = gotall[f0]
+    print("replay: impl : %s" % [norm(f) for f in got])
+    ok = [norm(f) for f in got if f["id"] != "internalError"] == [norm(f, True) for f in want] and any(f["id"] == "internalError" for f in got) == (parts[3] == "1")
+    return 0 if ok and (others or rc == int(parts[2])) else 1
